@@ -49,6 +49,7 @@ import (
 	"os"
 	"os/exec"
 	"path/filepath"
+	"runtime/pprof"
 	"sort"
 	"strconv"
 	"strings"
@@ -67,6 +68,11 @@ func init() {
 	if os.Getenv("VERIF_C09_CHILD") == "1" {
 		c09Child()
 		os.Exit(0)
+	}
+	if pf := os.Getenv("VERIF_C09_PROF"); pf != "" {
+		f, _ := os.Create(pf)
+		_ = pprof.StartCPUProfile(f)
+		go func() { time.Sleep(4 * time.Second); pprof.StopCPUProfile(); f.Close() }()
 	}
 	Register(&Prop{Gen: genC09, NewRunner: func() Runner { return newC09Runner() }})
 }
